@@ -243,6 +243,9 @@ class T:
             raise RuntimeError("Boolean value of Tensor with more than one value is ambiguous")
         return builtins.bool(self.a.reshape(())[()])
 
+    def __contains__(self, x):
+        return builtins.bool((self == x).any())
+
     def __index__(self):
         if self.a.size != 1:
             raise TypeError("only integer tensors of a single element can be converted to an index")
